@@ -20,14 +20,23 @@ def gen(rng):
         # navigate first, extend afterwards: results must follow the database, not an earlier call
         ops.append({'k': 'battery', 'expand': ''})
         ops.append({'k': 'battery', 'lexicon': 'a:1', 'expand': ''})
-    ops.append(multi.add_op(W, ['ax:1'], '1.3'))
-    if rng.random() < 0.4:
-        ops.append(multi.add_op(W, ['a:2'], '1.3'))
     sels = [{}, {'lexicon': 'a:1 ax:1'}, {'lexicon': 'a:1'}, {'lexicon': 'ax:1'}, {'lang': 'en'}, {'lexicon': 'a:1 e:1 b:1 u:1'}, {'lexicon': 'a:*'}]
-    for s in [{}] + rng.sample(sels[1:], 3):
+    forced = []
+    if 'a:2' in W and rng.random() < 0.35:
+        # one file: the extension of a:1 first, then a lexicon that uses the same entity ids as a:1
+        ops.append(multi.add_op(W, ['ax:1', 'a:2'], '1.3'))
+        forced.append({'lexicon': 'a:2'})
+    else:
+        ops.append(multi.add_op(W, ['ax:1'], '1.3'))
+        if rng.random() < 0.4:
+            ops.append(multi.add_op(W, ['a:2'], '1.3'))
+    if rng.random() < 0.4:
+        ops.append(multi.add_op(W, ['axx:1'], '1.3'))      # a chain base <- extension <- extension
+        forced.append({'lexicon': 'a:1 ax:1 axx:1'})
+    for s in [{}] + forced + rng.sample(sels[1:], 3):
         ops.append(dict({'k': 'battery'}, **s, expand=''))
     if rng.random() < 0.3:
-        ops.append({'k': 'remove', 'spec': 'ax:1', '_removed': ['ax:1']})
+        ops.append({'k': 'remove', 'spec': 'ax:1', '_removed': ['ax:1', 'axx:1']})      # the removal takes the extension of the extension along
         ops.append({'k': 'battery', 'expand': ''})
     return {'ops': ops}
 
